@@ -433,7 +433,7 @@ Hclose(int32 file_id)
     HEclear();
 
     /* convert file id to file rec and check for validity */
-    file_rec = HAatom_object(file_id);
+    file_rec = HAfile_object(file_id);
     if (BADFREC(file_rec))
         HGOTO_ERROR(DFE_ARGS, FAIL);
 
@@ -542,7 +542,7 @@ Hinquire(int32 access_id, int32 *pfile_id, uint16 *ptag, uint16 *pref, int32 *pl
 
     /* clear error stack and check validity of access id */
     HEclear();
-    access_rec = HAatom_object(access_id);
+    access_rec = HAaccess_object(access_id);
     if (access_rec == (accrec_t *)NULL)
         HGOTO_ERROR(DFE_ARGS, FAIL);
 
@@ -591,7 +591,7 @@ Hfidinquire(int32 file_id, char **fname, int *faccess, int *attach)
 
     HEclear();
 
-    file_rec = HAatom_object(file_id);
+    file_rec = HAfile_object(file_id);
     if (BADFREC(file_rec))
         HGOTO_ERROR(DFE_BADACC, FAIL);
 
@@ -676,12 +676,12 @@ Hnextread(int32 access_id, uint16 tag, uint16 ref, int origin)
 
     /* clear error stack and check validity of the access id */
     HEclear();
-    access_rec = HAatom_object(access_id);
+    access_rec = HAaccess_object(access_id);
     if (access_rec == (accrec_t *)NULL || !(access_rec->access & DFACC_READ) ||
         (origin != DF_START && origin != DF_CURRENT)) /* DF_END is NOT supported yet !!!! */
         HGOTO_ERROR(DFE_ARGS, FAIL);
 
-    file_rec = HAatom_object(access_rec->file_id);
+    file_rec = HAfile_object(access_rec->file_id);
     if (BADFREC(file_rec))
         HGOTO_ERROR(DFE_INTERNAL, FAIL);
 
@@ -858,7 +858,7 @@ Hstartaccess(int32 file_id, uint16 tag, uint16 ref, uint32 flags)
     /* clear error stack and check validity of file id */
     HEclear();
 
-    file_rec = HAatom_object(file_id);
+    file_rec = HAfile_object(file_id);
     if (BADFREC(file_rec))
         HGOTO_ERROR(DFE_ARGS, FAIL);
 
@@ -998,14 +998,14 @@ Hsetlength(int32 aid, int32 length)
     /* clear error stack and check validity of file id */
     HEclear();
 
-    if ((access_rec = HAatom_object(aid)) == NULL) /* get the access_rec pointer */
+    if ((access_rec = HAaccess_object(aid)) == NULL) /* get the access_rec pointer */
         HGOTO_ERROR(DFE_ARGS, FAIL);
 
     /* Check whether we are allowed to change the length */
     if (access_rec->new_elem != TRUE)
         HGOTO_ERROR(DFE_ARGS, FAIL);
 
-    file_rec = HAatom_object(access_rec->file_id);
+    file_rec = HAfile_object(access_rec->file_id);
     if (BADFREC(file_rec))
         HGOTO_ERROR(DFE_ARGS, FAIL);
 
@@ -1047,7 +1047,7 @@ Happendable(int32 aid)
 
     /* clear error stack and check validity of file id */
     HEclear();
-    if ((access_rec = HAatom_object(aid)) == NULL) /* get the access_rec pointer */
+    if ((access_rec = HAaccess_object(aid)) == NULL) /* get the access_rec pointer */
         HGOTO_ERROR(DFE_ARGS, FAIL);
 
     /* just indicate that the data should be appendable, and only convert */
@@ -1084,10 +1084,10 @@ HPisappendable(int32 aid)
 
     /* clear error stack and check validity of file id */
     HEclear();
-    if ((access_rec = HAatom_object(aid)) == NULL) /* get the access_rec pointer */
+    if ((access_rec = HAaccess_object(aid)) == NULL) /* get the access_rec pointer */
         HGOTO_ERROR(DFE_ARGS, FAIL);
 
-    file_rec = HAatom_object(access_rec->file_id);
+    file_rec = HAfile_object(access_rec->file_id);
     if (BADFREC(file_rec))
         HGOTO_ERROR(DFE_ARGS, FAIL);
 
@@ -1139,7 +1139,7 @@ Hseek(int32 access_id, int32 offset, int origin)
     /* clear error stack and check validity of this access id */
     HEclear();
 
-    access_rec = HAatom_object(access_id);
+    access_rec = HAaccess_object(access_id);
     if (access_rec == (accrec_t *)NULL || (origin != DF_START && origin != DF_CURRENT && origin != DF_END))
         HGOTO_ERROR(DFE_ARGS, FAIL);
 
@@ -1172,7 +1172,7 @@ Hseek(int32 access_id, int32 offset, int origin)
 
     /* check if element is appendable and writing past current element length */
     if (access_rec->appendable && offset >= data_len) { /* yes */
-        file_rec = HAatom_object(access_rec->file_id);
+        file_rec = HAfile_object(access_rec->file_id);
 
         /* check if we are at end of file */
         if (data_len + data_off !=
@@ -1222,7 +1222,7 @@ Htell(int32 access_id)
     /* clear error stack and check validity of this access id */
     HEclear();
 
-    access_rec = HAatom_object(access_id);
+    access_rec = HAaccess_object(access_id);
     if (access_rec == (accrec_t *)NULL)
         HGOTO_ERROR(DFE_ARGS, FAIL);
 
@@ -1261,7 +1261,7 @@ Hread(int32 access_id, int32 length, void *data)
 
     /* clear error stack and check validity of access id */
     HEclear();
-    access_rec = HAatom_object(access_id);
+    access_rec = HAaccess_object(access_id);
     if (access_rec == (accrec_t *)NULL || data == NULL)
         HGOTO_ERROR(DFE_ARGS, FAIL);
 
@@ -1276,7 +1276,7 @@ Hread(int32 access_id, int32 length, void *data)
     }
 
     /* check validity of file record */
-    file_rec = HAatom_object(access_rec->file_id);
+    file_rec = HAfile_object(access_rec->file_id);
     if (BADFREC(file_rec))
         HGOTO_ERROR(DFE_INTERNAL, FAIL);
 
@@ -1345,7 +1345,7 @@ Hwrite(int32 access_id, int32 length, const void *data)
 
     /* clear error stack and check validity of access id */
     HEclear();
-    access_rec = HAatom_object(access_id);
+    access_rec = HAaccess_object(access_id);
     if (access_rec == (accrec_t *)NULL || !(access_rec->access & DFACC_WRITE) || data == NULL)
         HGOTO_ERROR(DFE_ARGS, FAIL);
 
@@ -1356,7 +1356,7 @@ Hwrite(int32 access_id, int32 length, const void *data)
     }              /* end special */
 
     /* check validity of file record and get dd ptr */
-    file_rec = HAatom_object(access_rec->file_id);
+    file_rec = HAfile_object(access_rec->file_id);
     if (BADFREC(file_rec))
         HGOTO_ERROR(DFE_INTERNAL, FAIL);
 
@@ -1524,7 +1524,7 @@ Hendaccess(int32 access_id)
     } /* end if */
 
     /* check validity of file record */
-    file_rec = HAatom_object(access_rec->file_id);
+    file_rec = HAfile_object(access_rec->file_id);
     if (BADFREC(file_rec))
         HGOTO_ERROR(DFE_INTERNAL, FAIL);
 
@@ -1800,7 +1800,7 @@ Htrunc(int32 aid, int32 trunc_len)
 
     /* clear error stack and check validity of access id */
     HEclear();
-    access_rec = HAatom_object(aid);
+    access_rec = HAaccess_object(aid);
     if (access_rec == (accrec_t *)NULL || !(access_rec->access & DFACC_WRITE))
         HGOTO_ERROR(DFE_ARGS, FAIL);
 
@@ -1891,7 +1891,7 @@ Hsync(int32 file_id)
     int        ret_value = SUCCEED;
 
     /* check validity of file record and get dd ptr */
-    file_rec = HAatom_object(file_id);
+    file_rec = HAfile_object(file_id);
     if (BADFREC(file_rec))
         HGOTO_ERROR(DFE_INTERNAL, FAIL);
 
@@ -1929,7 +1929,7 @@ Hcache(int32 file_id, int cache_on)
     } /* end if */
     else {
         /* check validity of file record and get dd ptr */
-        file_rec = HAatom_object(file_id);
+        file_rec = HAfile_object(file_id);
         if (BADFREC(file_rec))
             HGOTO_ERROR(DFE_INTERNAL, FAIL);
 
@@ -1964,7 +1964,7 @@ HDvalidfid(int32 file_id)
     int        ret_value = TRUE;
 
     /* convert file id to file rec and check for validity */
-    file_rec = HAatom_object(file_id);
+    file_rec = HAfile_object(file_id);
     if (BADFREC(file_rec))
         ret_value = FALSE;
 
@@ -2006,7 +2006,7 @@ Hsetaccesstype(int32 access_id, unsigned accesstype)
     /* clear error stack and check validity of this access id */
     HEclear();
 
-    access_rec = HAatom_object(access_id);
+    access_rec = HAaccess_object(access_id);
     if (access_rec == (accrec_t *)NULL)
         HGOTO_ERROR(DFE_ARGS, FAIL);
     if (accesstype != DFACC_DEFAULT && accesstype != DFACC_SERIAL && accesstype != DFACC_PARALLEL)
@@ -2229,7 +2229,7 @@ HIget_function_table(accrec_t *access_rec)
     funclist_t *ret_value = NULL; /* FAIL */
 
     /* read in the special code in the special elt */
-    file_rec = HAatom_object(access_rec->file_id);
+    file_rec = HAfile_object(access_rec->file_id);
 
     /* get the offset and length of the dataset */
     if (HTPinquire(access_rec->ddid, NULL, NULL, &data_off, NULL) == FAIL)
@@ -2466,7 +2466,7 @@ Hgetfileversion(int32 file_id, uint32 *majorv, uint32 *minorv, uint32 *release, 
 
     HEclear();
 
-    file_rec = HAatom_object(file_id);
+    file_rec = HAfile_object(file_id);
     if (BADFREC(file_rec))
         HGOTO_ERROR(DFE_ARGS, FAIL);
 
@@ -2507,7 +2507,7 @@ HIcheckfileversion(int32 file_id)
 
     HEclear();
 
-    file_rec = HAatom_object(file_id);
+    file_rec = HAfile_object(file_id);
     if (BADFREC(file_rec))
         HGOTO_ERROR(DFE_ARGS, FAIL);
 
@@ -2823,7 +2823,7 @@ HIupdate_version(int32 file_id)
     HEclear();
 
     /* Check args */
-    file_rec = HAatom_object(file_id);
+    file_rec = HAfile_object(file_id);
     if (BADFREC(file_rec))
         HGOTO_ERROR(DFE_ARGS, FAIL);
 
@@ -2880,7 +2880,7 @@ HIread_version(int32 file_id)
 
     HEclear();
 
-    file_rec = HAatom_object(file_id);
+    file_rec = HAfile_object(file_id);
     if (BADFREC(file_rec))
         HGOTO_ERROR(DFE_ARGS, FAIL);
 
@@ -3041,7 +3041,7 @@ HDget_special_info(int32 access_id, sp_info_block_t *info_block)
 
     /* clear error stack and check validity of access id */
     HEclear();
-    access_rec = HAatom_object(access_id);
+    access_rec = HAaccess_object(access_id);
     if (access_rec == (accrec_t *)NULL || info_block == NULL)
         HGOTO_ERROR(DFE_ARGS, FAIL);
 
@@ -3081,7 +3081,7 @@ HDset_special_info(int32 access_id, sp_info_block_t *info_block)
 
     /* clear error stack and check validity of access id */
     HEclear();
-    access_rec = HAatom_object(access_id);
+    access_rec = HAaccess_object(access_id);
     if (access_rec == (accrec_t *)NULL || info_block == NULL)
         HGOTO_ERROR(DFE_ARGS, FAIL);
 
@@ -3395,7 +3395,7 @@ HDcheck_empty(int32 file_id, uint16 tag, uint16 ref, int *emptySDS /* TRUE if da
     HEclear();
 
     /* convert file id to file rec and check for validity */
-    file_rec = HAatom_object(file_id);
+    file_rec = HAfile_object(file_id);
     if (BADFREC(file_rec))
         HGOTO_ERROR(DFE_ARGS, FAIL);
 
